@@ -17,13 +17,14 @@ pub fn run(args: &Args) -> i32 {
     let spec = Spec::new(
         "C05",
         "exploration",
-        "scripts run by SysProbe components that write a value listing one Own twice (tuple, array, separated by data, re-write of an open entry) into an own collection entry or an entry of a held key-value store, for freshly created objects, inner objects, vaults and key-value stores, alone or after ordinary stores in the same frame; non-trivial = a duplicated-own write step that reached the system API; distinct = distinct (node kind, value shape, destination, step outcome class, transaction outcome)",
+        "scripts run by SysProbe components that write a value listing one Own twice (tuple, array, separated by data, re-write of an open entry) into an own collection entry or an entry of a held key-value store, or creating a new object whose field lists it twice, for freshly created objects, inner objects, vaults and key-value stores, alone or after ordinary stores in the same frame; non-trivial = a duplicated-own write step that reached the system API; distinct = distinct (node kind, value shape, destination, step outcome class, transaction outcome)",
     )
     .assume("the duplicated-own write goes through SystemApi::key_value_entry_set of a native blueprint (the same kernel path a WASM component reaches through its key-value store API)")
     .floor("c05p:dup_write_steps", args.tier.pick(400, 8000))
     .floor("c05p:dup_write_steps:own_collection", args.tier.pick(100, 2000))
     .floor("c05p:dup_write_steps:kv_store", args.tier.pick(100, 2000))
-    .floor("c05p:dup_write_steps:rewrite_of_open_entry", args.tier.pick(50, 1000));
+    .floor("c05p:dup_write_steps:rewrite_of_open_entry", args.tier.pick(50, 1000))
+    .floor("c05p:dup_write_steps:new_object_field", args.tier.pick(50, 1000));
     let mut report = Report::new(args, spec);
     if args.replay.is_some() {
         println!("C05 probe: re-run with the recorded seed (VERIF_SEED) and tier; the detail lists the script");
@@ -69,7 +70,7 @@ pub fn run(args: &Args) -> i32 {
             if into_store {
                 script.push(Op::NewKvStore { dst: 11 });
             }
-            let shape = rng.below(4) as u8;
+            let shape = rng.below(5) as u8;
             let key = [b"dup".as_slice(), &rng.bytes(5)].concat();
             let dup_idx = script.len();
             script.push(Op::StoreDup { slot: 10, store: if into_store { Some(11) } else { None }, key, shape });
@@ -95,9 +96,14 @@ pub fn run(args: &Args) -> i32 {
                     Err(e) => format!("err:{}", crate::c50::err_class(e)),
                 };
                 shard.count("c05p:dup_write_steps");
-                shard.count(if into_store { "c05p:dup_write_steps:kv_store" } else { "c05p:dup_write_steps:own_collection" });
+                if shape != 4 {
+                    shard.count(if into_store { "c05p:dup_write_steps:kv_store" } else { "c05p:dup_write_steps:own_collection" });
+                }
                 if shape == 3 {
                     shard.count("c05p:dup_write_steps:rewrite_of_open_entry");
+                }
+                if shape == 4 {
+                    shard.count("c05p:dup_write_steps:new_object_field");
                 }
                 shard.seen("c05p:dup_write_outcomes", &outcome);
                 shard.nontrivial(&(kind_name, shape, into_store, &outcome, &txo));
